@@ -12,6 +12,7 @@ EXPLANATION = (
     "(R6) the calendar queue's insertion guard compares against the field fetch_next sets to the emitted event's time (not the coarser bucket-window start). "
     '(R7) Runtime::add_event_in schedules at the current simulation clock + the given duration (SimTime::now at the call, no other base time). '
     "(R8/R9, shared with C01.R8/R5) the calendar's index grid and scan window are in full resolution, the window is stepped and the bound follows the popped event. "
+    '(R8 also, shared with C01.R2: one bucket-index expression; R10, shared with C03.R2: the same-instant FIFO holds exactly the events with time == bound.) '
     "Decides these necessary conditions only; monotonicity over a run additionally needs the event set's order (C01, not decided).")
 ASSUMPTIONS = ["atomic stores/loads behave as documented; the clock static is only reachable through its def path"]
 USES_B = True
